@@ -1,6 +1,6 @@
 (* C05 proofs, part 3: the SPEC checker that ./check runs on the implementation's observations accepts the
    model's observation of every program - every configuration, every number of threads, every schedule. *)
-From V Require Import C10.ProofsCtx.
+From V Require Import C10.ProofsCtx C10.ProofsStack C10.ProofsSim C10.ProofsStep C10.ProofsProps.
 From V Require Import C05.Spec C05.ProofsCore.
 From Coq Require Import Lia ZifyBool ZifyNat ZifyN.
 Local Open Scope Z_scope.
@@ -253,47 +253,196 @@ Proof.
   unfold born_of in X1. rewrite X1, T1, T2. reflexivity.
 Qed.
 
-(* one operation: the checker, run on the model's observation, reports nothing and keeps in step with the table *)
-Lemma spec_op_model : forall cf w t o, samp_ok cf -> start_fresh cf w o -> rec_local w ->
-  spec_op cf (tbl_of w) o (snd (sstep cf w t o)) = (tbl_of (fst (sstep cf w t o)), []) /\ rec_local (fst (sstep cf w t o)).
+(* ------------------------------------------------------------------ the checker's machine simulates the model's world *)
+(* every thread's view of the world (C10 thread world: heap, named contexts, its own array stack, tokens) is related
+   by C10's simulation relation R to the checker's view (association lists, its own list of names, tokens) *)
+Record Sim (n : nat) (w : world) (s : cstate) : Prop := mk_Sim {
+  Sim_tbl : cs_tbl s = tbl_of w;
+  Sim_n1 : length (w_stks w) = n;
+  Sim_n2 : length (cs_stacks s) = n;
+  Sim_R : forall t, (t < n)%nat -> R (view w t) (cview s t)
+}.
+
+Lemma R_last : forall t a l, R t a -> R t (C10.Spec.mk_s (C10.Spec.s_pool a) (C10.Spec.s_stack a) (C10.Spec.s_toks a) l).
+Proof. intros t a l [H1 H2 H3 H4 H5 H6 H7 H8 H9 H10]. constructor; assumption. Qed.
+
+Lemma nth_repeat : forall A (x : A) n t d, (t < n)%nat -> nth t (repeat x n) d = x.
+Proof. intros A x n. induction n as [|n IH]; intros t d H; [lia|]. destruct t; cbn; [reflexivity | apply IH; lia]. Qed.
+
+Lemma Sim_init : forall n, Sim n (world0 n) (cstate0 n).
 Proof.
-  intros cf w t o OK FR RL. destruct o as [p gsid gtid scr | k | c | | co]; cbn [sstep].
+  intro n. constructor; cbn; try reflexivity; try apply repeat_length.
+  intros t Ht. unfold view, cview, stk_of. cbn [world0 cstate0 w_heap w_pool w_toks w_stks cs_pool cs_toks cs_stacks].
+  rewrite !nth_repeat by exact Ht. apply (R_last tstate0 C10.Spec.sstate0 ""). apply R_init.
+Qed.
+
+(* the shared parts (heap, named contexts, tokens) come from the thread that moved, the stack from the thread itself *)
+Lemma R_other : forall T' A' h pool stk toks apool astk atoks l l',
+  R T' A' -> R (mk_t h pool stk toks) (C10.Spec.mk_s apool astk atoks l) ->
+  (exists p, t_pool T' = pool ++ p) -> (length atoks <= length (C10.Spec.s_toks A'))%nat ->
+  R (mk_t (t_heap T') (t_pool T') stk (t_toks T')) (C10.Spec.mk_s (C10.Spec.s_pool A') astk (C10.Spec.s_toks A') l').
+Proof.
+  intros T' A' h pool stk toks apool astk atoks l l' [H1 H2 H3 H4 H5 H6 H7 H8 H9 H10] [G1 G2 G3 G4 G5 G6 G7 G8 G9 G10] [p E] L.
+  cbn [t_heap t_pool t_stk t_toks C10.Spec.s_pool C10.Spec.s_stack C10.Spec.s_toks] in *.
+  constructor; cbn [t_heap t_pool t_stk t_toks C10.Spec.s_pool C10.Spec.s_stack C10.Spec.s_toks]; try assumption.
+  - rewrite G6. apply map_ext_in. intros i Hi. rewrite Forall_forall in G7. specialize (G7 i Hi).
+    unfold nm. rewrite E. symmetry. apply app_nth1. exact G7.
+  - rewrite E, app_length. eapply Forall_impl; [|exact G7]. intros i Hi. cbn in Hi. lia.
+  - lia.
+Qed.
+
+Lemma sstep_toks_grow : forall a o, (length (C10.Spec.s_toks a) <= length (C10.Spec.s_toks (fst (C10.Spec.sstep a o))))%nat.
+Proof.
+  intros a o. destruct o as [r k v | r b | r k | r k | r | keys | i j | r | k | k | | sp]; cbn [C10.Spec.sstep fst C10.Spec.s_toks];
+    try lia; try (rewrite app_length; cbn; lia).
+  - destruct (nth k (C10.Spec.s_toks a) C10.Spec.SDead) as [|i|i|i]; try (cbn; lia);
+      destruct (C10.Spec.sdetach (C10.Spec.s_stack a) i) as [[stk b] kd]; cbn; lia.
+  - destruct (nth k (C10.Spec.s_toks a) C10.Spec.SDead) as [|i|i|i]; try (cbn; lia);
+      destruct (C10.Spec.sdetach (C10.Spec.s_stack a) i) as [[stk b] kd]; cbn [fst C10.Spec.s_toks]; rewrite set_nth_length; lia.
+Qed.
+
+Lemma view_eta : forall w t st, (t < length (w_stks w))%nat -> view (unview w t st) t = st.
+Proof.
+  intros w t [h p stk tk] L. unfold view, unview, stk_of. cbn [w_heap w_pool w_toks w_stks t_heap t_pool t_stk t_toks].
+  rewrite nth_set_nth_same by exact L. reflexivity.
+Qed.
+
+(* a context operation of thread t keeps every thread's view related *)
+Lemma Sim_ctx_step : forall n w s t co, Sim n w s -> (t < n)%nat ->
+  Sim n (unview w t (fst (step (view w t) co))) (cunview s t (fst (C10.Spec.sstep (cview s t) co))).
+Proof.
+  intros n w s t co [S1 S2 S3 S4] Ht.
+  pose proof (S4 t Ht) as Rt. destruct (step_sim (view w t) (cview s t) co Rt) as [R' _].
+  set (T' := fst (step (view w t) co)) in *. set (A' := fst (C10.Spec.sstep (cview s t) co)) in *.
+  constructor.
+  - exact S1.
+  - unfold unview. cbn [w_stks]. rewrite set_nth_length. exact S2.
+  - unfold cunview. cbn [cs_stacks]. rewrite set_nth_length. exact S3.
+  - intros u Hu. destruct (Nat.eq_dec u t) as [->|Ne].
+    + rewrite view_eta by lia. unfold cunview, cview. cbn [cs_pool cs_toks cs_stacks].
+      rewrite nth_set_nth_same by lia. apply R_last. exact R'.
+    + unfold view at 1, unview, stk_of. cbn [w_heap w_pool w_toks w_stks].
+      rewrite nth_set_nth_other by congruence.
+      unfold cunview, cview. cbn [cs_pool cs_toks cs_stacks]. rewrite nth_set_nth_other by congruence.
+      pose proof (S4 u Hu) as Ru. unfold view, cview in Ru.
+      eapply R_other; [exact R' | exact Ru | |].
+      * destruct (step_extends (view w t) co) as [ex [p [_ P]]]. exists p. exact P.
+      * apply (sstep_toks_grow (cview s t) co).
+Qed.
+
+Lemma Sim_same_ctx : forall n w s w' s',
+  Sim n w s -> w_heap w' = w_heap w -> w_pool w' = w_pool w -> w_toks w' = w_toks w -> w_stks w' = w_stks w ->
+  cs_pool s' = cs_pool s -> cs_toks s' = cs_toks s -> cs_stacks s' = cs_stacks s -> cs_tbl s' = tbl_of w' ->
+  Sim n w' s'.
+Proof.
+  intros n w s w' s' [S1 S2 S3 S4] E1 E2 E3 E4 F1 F2 F3 F4. constructor; try congruence.
+  intros t Ht. unfold view, cview, stk_of. rewrite E1, E2, E3, E4, F1, F2, F3. apply (S4 t Ht).
+Qed.
+
+(* ------------------------------------------------------------------ the checker's answers are the model's *)
+Lemma ctx_of_tbl_idx : forall w i, ctx_of_tbl (tbl_of w) i = ctx_of_idx w i.
+Proof.
+  intros w i. unfold ctx_of_tbl, ctx_of_idx, tbl_of. destruct (i <? 0); [reflexivity|].
+  rewrite nth_error_map. destruct (nth_error (w_spans w) (Z.to_nat i)); reflexivity.
+Qed.
+
+Lemma exp_active_model : forall n w s t, Sim n w s -> (t < n)%nat -> exp_active s t = active_ctx w t.
+Proof.
+  intros n w s t [S1 S2 S3 S4] Ht. pose proof (S4 t Ht) as Rt.
+  destruct (scur_ok _ _ Rt) as [L T]. unfold exp_active, span_in, active_ctx, active_idx, binds_of.
+  rewrite S1, ctx_of_tbl_idx. f_equal. f_equal.
+  change (top (stk_of w t)) with (top (t_stk (view w t))). rewrite T.
+  symmetry. apply (get_sim (view w t) (cview s t) _ span_key Rt L).
+Qed.
+
+Lemma exp_cx_model : forall n w s t p, Sim n w s -> (t < n)%nat -> exp_cx s t p = cx_obs (eval_parent w t p).
+Proof.
+  intros n w s t p [S1 S2 S3 S4] Ht. destruct p as [|c|r]; try reflexivity.
+  pose proof (S4 t Ht) as Rt. destruct (res_ok _ _ r Rt) as [L E].
+  cbn [exp_cx eval_parent cx_obs]. rewrite E. unfold span_in, root_in, cx_span_ctx, cx_is_root, binds_of.
+  change (w_heap w) with (t_heap (view w t)). change (nm (t_pool (view w t))) with (nm (t_pool (view w t))).
+  rewrite !(get_sim (view w t) (cview s t) _ _ Rt L). rewrite S1, ctx_of_tbl_idx. reflexivity.
+Qed.
+
+Lemma scop_ok_model : forall w co, scop_ok (length (tbl_of w)) co = cop_ok w co.
+Proof.
+  intros w co. unfold tbl_of. rewrite map_length. unfold scop_ok, cop_ok, span_ref_ok.
+  destruct co as [r k v | r b | r k | r k | r | keys | i j | r | k | k | | sp]; reflexivity.
+Qed.
+
+Lemma tok_eqb_refl : forall t, tok_eqb t t = true.
+Proof. destruct t; cbn; [apply bytes_eqb_refl | apply Z.eqb_refl | apply bytes_eqb_refl]. Qed.
+Lemma toks_eqb_refl : forall l, toks_eqb l l = true.
+Proof. induction l as [|t l IH]; cbn; [reflexivity | rewrite tok_eqb_refl; exact IH]. Qed.
+
+Lemma cx_eqb_refl : forall c, cx_eqb c c = true.
+Proof. destruct c as [[c r]|]; cbn; [rewrite ctx5_eqb_refl, Bool.eqb_reflx; reflexivity | reflexivity]. Qed.
+
+Lemma so_eta : forall so, mk_so (so_active so) (so_cx so) (so_new so) (so_rec so) (so_sid_calls so) (so_tid_calls so) (so_samp so) = so.
+Proof. destruct so; reflexivity. Qed.
+
+(* one operation: the checker, run on the model's observation, reports nothing and keeps in step with the world *)
+Lemma spec_op_model : forall cf n w s t o, samp_ok cf -> start_fresh cf w o -> rec_local w -> Sim n w s -> (t < n)%nat ->
+  snd (spec_op cf s t o (snd (sstep cf w t o))) = [] /\
+  Sim n (fst (sstep cf w t o)) (fst (spec_op cf s t o (snd (sstep cf w t o)))) /\
+  rec_local (fst (sstep cf w t o)).
+Proof.
+  intros cf n w s t o OK FR RL SM Ht. pose proof (Sim_tbl _ _ _ SM) as TB.
+  destruct o as [p gsid gtid scr | k | c | | co]; cbn [sstep].
   - (* StartSpan *)
-    unfold do_start. destruct (cf_enabled cf) eqn:En; cbn [negb fst snd spec_op].
-    + unfold spec_start. rewrite En.
+    assert (Start : forall so, so_active so = active_ctx w t -> so_cx so = cx_obs (eval_parent w t p) ->
+              spec_op cf s t (SStart p gsid gtid scr) (OStart so) =
+              (with_tbl s (tbl_of w ++ [sspan_of_start cf p scr so]),
+               spec_start cf p gsid gtid scr so ++ spec_fresh cf (tbl_of w) p so)).
+    { intros so A C. cbn [spec_op]. rewrite (exp_active_model n w s t SM Ht), (exp_cx_model n w s t p SM Ht), <- A, <- C.
+      rewrite so_eta, TB, ctx5_eqb_refl, cx_eqb_refl. reflexivity. }
+    unfold do_start. destruct (cf_enabled cf) eqn:En; cbn [negb fst snd].
+    + rewrite Start by reflexivity. cbn [fst snd]. unfold spec_start. rewrite En.
       pose proof (spec_start_enabled_model cf OK gsid gtid scr p _ (active_ctx w t) (eval_parent_compat w t p)) as S1.
       pose proof (sspan_of_start_model cf p _ gsid gtid scr (active_ctx w t) OK (eval_parent_compat w t p) En) as S2.
       pose proof (spec_fresh_model cf w p _ gsid gtid scr (active_ctx w t) (eval_parent_compat w t p) FR) as S3.
       unfold model_start_obs in S1, S2, S3. cbv zeta in S1, S2, S3. rewrite S1, S2, S3.
-      split.
-      * unfold tbl_of, add_span. cbn [w_spans]. rewrite map_app. reflexivity.
+      split; [reflexivity|]. split.
+      * eapply Sim_same_ctx; [exact SM | reflexivity..|].
+        unfold with_tbl, tbl_of, add_span. cbn [cs_tbl w_spans]. rewrite map_app. reflexivity.
       * unfold rec_local, add_span. cbn [w_spans]. apply Forall_app. split; [exact RL|]. constructor; [|constructor].
         intros _. cbn [sp_ctx]. reflexivity.
-    + unfold spec_start. rewrite En. split.
-      * unfold tbl_of, add_span. cbn [w_spans]. rewrite map_app.
-        unfold sspan_of_start, spec_start_disabled, spec_fresh. rewrite En. cbn [so_new so_rec so_samp so_sid_calls so_tid_calls andb]. reflexivity.
+    + rewrite Start by reflexivity. cbn [fst snd]. unfold spec_start. rewrite En.
+      split; [unfold spec_start_disabled, spec_fresh; rewrite En; reflexivity|]. split.
+      * eapply Sim_same_ctx; [exact SM | reflexivity..|].
+        unfold with_tbl, tbl_of, add_span. cbn [cs_tbl w_spans]. rewrite map_app.
+        unfold sspan_of_start. rewrite En. reflexivity.
       * unfold rec_local, add_span. cbn [w_spans]. apply Forall_app. split; [exact RL|]. constructor; [|constructor]. discriminate.
   - (* End *)
-    unfold do_end. unfold tbl_of at 1. cbn [spec_op].
-    destruct (nth_error (w_spans w) k) as [s|] eqn:N; cbn [fst snd spec_op]; rewrite nth_error_map, N; cbn [option_map].
-    + split.
-      * f_equal.
-        -- unfold tbl_of. cbn [w_spans]. rewrite map_set_nth. reflexivity.
-        -- unfold spec_end. cbn [ss_of ss_rec ss_ended]. destruct (sp_rec s && negb (sp_ended s)) eqn:F.
-           ++ unfold export_of. rewrite N. apply spec_xrec_model.
-              unfold rec_local in RL. rewrite Forall_forall in RL. apply (RL s (nth_error_In _ _ N)).
-              apply andb_true_iff in F. tauto.
-           ++ reflexivity.
+    unfold do_end. cbn [spec_op]. rewrite TB. unfold tbl_of.
+    destruct (nth_error (w_spans w) k) as [e|] eqn:N; cbn [fst snd spec_op]; rewrite nth_error_map, N; cbn [option_map fst snd].
+    + split; [|split].
+      * unfold spec_end. cbn [ss_of ss_rec ss_ended]. destruct (sp_rec e && negb (sp_ended e)) eqn:F.
+        -- unfold export_of. rewrite N. apply spec_xrec_model.
+           unfold rec_local in RL. rewrite Forall_forall in RL. apply (RL e (nth_error_In _ _ N)).
+           apply andb_true_iff in F. tauto.
+        -- reflexivity.
+      * eapply Sim_same_ctx; [exact SM | reflexivity..|].
+        unfold with_tbl, tbl_of. cbn [cs_tbl w_spans]. rewrite map_set_nth. reflexivity.
       * unfold rec_local in *. cbn [w_spans]. apply Forall_set_nth'; [exact RL|]. cbn.
-        rewrite Forall_forall in RL. apply (RL s (nth_error_In _ _ N)).
-    + split; [reflexivity | exact RL].
+        rewrite Forall_forall in RL. apply (RL e (nth_error_In _ _ N)).
+    + split; [reflexivity | split; [exact SM | exact RL]].
   - (* Wrap *)
-    cbn [fst snd spec_op]. split.
-    + unfold tbl_of, add_span. cbn [w_spans]. rewrite map_app. reflexivity.
+    cbn [fst snd spec_op]. split; [reflexivity|]. split.
+    + eapply Sim_same_ctx; [exact SM | reflexivity..|].
+      unfold with_tbl, tbl_of, add_span. cbn [cs_tbl w_spans]. rewrite TB, map_app. reflexivity.
     + unfold rec_local, add_span. cbn [w_spans]. apply Forall_app. split; [exact RL|]. constructor; [|constructor]. discriminate.
-  - cbn [fst snd spec_op]. split; [reflexivity | exact RL].
-  - destruct (cop_ok w co); [|cbn [fst snd spec_op]; split; [reflexivity | exact RL]].
-    destruct (step (view w t) co) as [st out]. cbn [fst snd spec_op]. split; [reflexivity | exact RL].
+  - (* GetCurrentSpan *)
+    cbn [fst snd spec_op]. rewrite (exp_active_model n w s t SM Ht), ctx5_eqb_refl. split; [reflexivity | split; [exact SM | exact RL]].
+  - (* context operations *)
+    cbn [spec_op]. rewrite TB, scop_ok_model.
+    destruct (cop_ok w co) eqn:CO.
+    + destruct (step_sim (view w t) (cview s t) co (Sim_R _ _ _ SM t Ht)) as [_ Out].
+      pose proof (Sim_ctx_step n w s t co SM Ht) as SM'.
+      destruct (step (view w t) co) as [st out]. cbn [fst snd] in *.
+      destruct (C10.Spec.sstep (cview s t) co) as [a cs]. cbn [fst snd] in *.
+      rewrite Out. unfold outs, chunk_toks. rewrite toks_eqb_refl. split; [reflexivity | split; [exact SM' | exact RL]].
+    + cbn [fst snd]. split; [reflexivity | split; [exact SM | exact RL]].
 Qed.
 
 Lemma srun_cons' : forall cf w t o ops,
@@ -303,13 +452,21 @@ Proof.
   intros. cbn [srun]. destruct (sstep cf w t o) as [w1 out]. cbn [fst snd]. destruct (srun cf w1 ops) as [w2 outs]. reflexivity.
 Qed.
 
-Lemma spec_ops_model : forall cf ops w, samp_ok cf -> oracle_fresh cf w ops -> rec_local w ->
-  spec_ops cf (tbl_of w) ops (snd (srun cf w ops)) = (tbl_of (fst (srun cf w ops)), []) /\ rec_local (fst (srun cf w ops)).
+Definition threads_ok (n : nat) (ops : list (nat * sop)) : Prop := Forall (fun p => (fst p < n)%nat) ops.
+
+Lemma spec_ops_model : forall cf n ops w s, samp_ok cf -> oracle_fresh cf w ops -> rec_local w -> Sim n w s -> threads_ok n ops ->
+  snd (spec_ops cf s ops (snd (srun cf w ops))) = [] /\
+  cs_tbl (fst (spec_ops cf s ops (snd (srun cf w ops)))) = tbl_of (fst (srun cf w ops)) /\
+  rec_local (fst (srun cf w ops)).
 Proof.
-  intros cf ops. induction ops as [|[t o] ops IH]; intros w OK FR RL; [split; [reflexivity | exact RL]|].
-  rewrite srun_cons'. cbn [fst snd spec_ops]. destruct FR as [FR1 FR2].
-  destruct (spec_op_model cf w t o OK FR1 RL) as [E RL1]. rewrite E.
-  destruct (IH _ OK FR2 RL1) as [E2 RL2]. rewrite E2. split; [reflexivity | exact RL2].
+  intros cf n ops. induction ops as [|[t o] ops IH]; intros w s OK FR RL SM TH.
+  - cbn. split; [reflexivity | split; [apply (Sim_tbl _ _ _ SM) | exact RL]].
+  - rewrite srun_cons'. cbn [fst snd spec_ops]. destruct FR as [FR1 FR2]. inversion TH as [|x l Ht TH']; subst. cbn [fst] in Ht.
+    destruct (spec_op_model cf n w s t o OK FR1 RL SM Ht) as (E & SM1 & RL1).
+    destruct (spec_op cf s t o (snd (sstep cf w t o))) as [s1 f]. cbn [fst snd] in E, SM1. subst f.
+    destruct (IH _ s1 OK FR2 RL1 SM1 TH') as (E2 & T2 & RL2).
+    destruct (spec_ops cf s1 ops (snd (srun cf (fst (sstep cf w t o)) ops))) as [s2 fs]. cbn [fst snd] in *.
+    subst fs. split; [reflexivity | split; assumption].
 Qed.
 
 (* ------------------------------------------------------------------ the end of the program *)
@@ -352,35 +509,36 @@ Proof.
 Qed.
 
 (* ------------------------------------------------------------------ model_meets_spec *)
-Theorem model_meets_spec_oracles : forall cf n ops, samp_ok cf -> oracle_fresh cf (world0 n) ops ->
-  spec_case cf ops (run_case cf n ops) = [].
+Theorem model_meets_spec_oracles : forall cf n ops, samp_ok cf -> threads_ok n ops -> oracle_fresh cf (world0 n) ops ->
+  spec_case cf n ops (run_case cf n ops) = [].
 Proof.
-  intros cf n ops OK FR. unfold run_case, spec_case.
+  intros cf n ops OK TH FR. unfold run_case, spec_case.
   assert (RL0 : rec_local (world0 n)) by constructor.
-  destruct (spec_ops_model cf ops (world0 n) OK FR RL0) as [E RL]. change (tbl_of (world0 n)) with (@nil sspan) in E.
-  destruct (srun cf (world0 n) ops) as [w out] eqn:R. cbn [fst snd] in E, RL.
+  destruct (spec_ops_model cf n ops (world0 n) (cstate0 n) OK FR RL0 (Sim_init n) TH) as (E & T & RL).
+  destruct (srun cf (world0 n) ops) as [w out] eqn:R. cbn [fst snd] in E, T, RL.
   destruct (finish_model (w_spans w) [] w eq_refl RL) as [F C]. cbn [length] in F, C.
   destruct (end_all w (seq 0 (length (w_spans w)))) as [w' ex] eqn:EA. cbn [fst snd] in F, C.
-  cbn [co_ops co_fin co_dump]. rewrite E. cbn [app]. unfold tbl_of. rewrite F. cbn [app].
+  cbn [co_ops co_fin co_dump]. destruct (spec_ops cf (cstate0 n) ops out) as [s f]. cbn [fst snd] in E, T. subst f.
+  cbn [app]. rewrite T. unfold tbl_of. rewrite F. cbn [app].
   unfold dump_spans. apply spec_dump_model. exact C.
 Qed.
 
 (* with a custom id generator nothing is assumed about the ids *)
-Theorem model_meets_spec_any_sampler : forall cf n ops, samp_ok cf -> cf_defgen cf = false ->
-  spec_case cf ops (run_case cf n ops) = [].
-Proof. intros cf n ops OK D. apply model_meets_spec_oracles; [exact OK | apply oracle_fresh_scripted; exact D]. Qed.
+Theorem model_meets_spec_any_sampler : forall cf n ops, samp_ok cf -> threads_ok n ops -> cf_defgen cf = false ->
+  spec_case cf n ops (run_case cf n ops) = [].
+Proof. intros cf n ops OK TH D. apply model_meets_spec_oracles; [exact OK | exact TH | apply oracle_fresh_scripted; exact D]. Qed.
 
 (* every configuration a case file can describe with a scripted generator: built-in samplers (C12), the scripted one,
-   ParentBased around either *)
-Theorem model_meets_spec : forall enabled random s n ops,
-  spec_case (cfg_of enabled random s) ops (run_case (cfg_of enabled random s) n ops) = [].
-Proof. intros. apply model_meets_spec_any_sampler; [apply cfg_of_ok | reflexivity]. Qed.
+   ParentBased around either; every operation runs on one of the n threads *)
+Theorem model_meets_spec : forall enabled random s n ops, threads_ok n ops ->
+  spec_case (cfg_of enabled random s) n ops (run_case (cfg_of enabled random s) n ops) = [].
+Proof. intros. apply model_meets_spec_any_sampler; [apply cfg_of_ok | assumption | reflexivity]. Qed.
 
 (* ... and with the default RandomIdGenerator, under the assumption that it yields fresh ids *)
-Theorem model_meets_spec_default_generator : forall enabled s n ops,
+Theorem model_meets_spec_default_generator : forall enabled s n ops, threads_ok n ops ->
   oracle_fresh (cfg_of_default enabled s) (world0 n) ops ->
-  spec_case (cfg_of_default enabled s) ops (run_case (cfg_of_default enabled s) n ops) = [].
-Proof. intros. apply model_meets_spec_oracles; [apply cfg_of_default_ok | assumption]. Qed.
+  spec_case (cfg_of_default enabled s) n ops (run_case (cfg_of_default enabled s) n ops) = [].
+Proof. intros. apply model_meets_spec_oracles; [apply cfg_of_default_ok | assumption | assumption]. Qed.
 
 Example oracle_fresh_nonvacuous :
   let cf := cfg_of_default true CScript in
@@ -389,7 +547,7 @@ Example oracle_fresh_nonvacuous :
               (0%nat, SStart PDef (repeat x13 8) (repeat x23 16) (mk_sres Drop None None))] in
   oracle_fresh cf (world0 2) ops /\ cf_defgen cf = true /\
   (* a repeated or a zero id is NOT accepted by the checker *)
-  spec_case cf [(0%nat, SStart PDef (zeros 8) (repeat x21 16) (mk_sres Drop None None))]
+  spec_case cf 1 [(0%nat, SStart PDef (zeros 8) (repeat x21 16) (mk_sres Drop None None))]
             (run_case cf 1 [(0%nat, SStart PDef (zeros 8) (repeat x21 16) (mk_sres Drop None None))]) <> [].
 Proof. vm_compute. repeat split; intros; try reflexivity; discriminate. Qed.
 
@@ -402,3 +560,19 @@ Example model_meets_spec_nonvacuous :
   length (co_ops (run_case cf 2 ops)) = 5%nat /\ length (co_dump (run_case cf 2 ops)) = 3%nat /\
   (exists x, snd (srun cf (world0 2) ops) <> [] /\ nth 4 (co_ops (run_case cf 2 ops)) OBadRef = OEnd [x]).
 Proof. vm_compute. repeat split. eexists. split; [discriminate | reflexivity]. Qed.
+
+(* the checker does not take the implementation's word for the active span: an observation in which the report about
+   the active span is wrong, or in which a child of the innermost open scope comes out as a root, is rejected *)
+Example active_span_clause_fires :
+  let cf := cfg_of true false CScript in
+  let ops := [(0%nat, SWrap ex_parent); (0%nat, SCtx (OScope 0));
+              (0%nat, SStart PDef (repeat x11 8) (repeat x21 16) (mk_sres RecordAndSample None None))] in
+  (* what an implementation that lost the scope would show: no active span, a new trace *)
+  let lost := new_span (cf_samp cf (mk_sres RecordAndSample None None)) false (repeat x11 8) (repeat x21 16) ctx_invalid in
+  let obs := mk_co [OCtxOut []; OCtxOut [];
+                    OStart (mk_so ctx_invalid None (b_ctx lost) true 1 1 (Some (ctx_invalid, repeat x21 16, (RecordAndSample, None, -1))))]
+                   [mk_x 2 (repeat x21 16) (repeat x11 8) (zeros 8) 1 1 false [] []]
+                   [(ex_parent, false); (b_ctx lost, false)] in
+  existsb (tok_eqb (tag "active_span:not_the_innermost_open_scope")) (spec_case cf 1 ops obs) = true /\
+  existsb (tok_eqb (tag "parent_precedence:active_span_trace_id_not_inherited")) (spec_case cf 1 ops obs) = true.
+Proof. vm_compute. split; reflexivity. Qed.
